@@ -7,31 +7,41 @@
 From Sci Require Export Network.Model Network.Spec Network.Aes.
 Local Open Scope N_scope.
 
+(** literal-friendly element records (plain constructors elaborate much faster than tuples) *)
+Inductive c_as := A (ia : N) (core : bool) (key : N).   (* key: 16 bytes as one big-endian number *)
+Inductive c_link := L (a ai ty b bi : N) (up : bool).   (* a IS type OF b: 0 peer 1 parent 2 child 3 core *)
+Inductive c_info := I (flags segid ts : N).             (* flags: 1 cons dir, 2 peering *)
+Inductive c_hop := H (flags exp cin ceg mac : N).       (* flags: 1 cons egress alert, 2 cons ingress alert *)
+Inductive c_line := T (ia ifid code arg : N).
+Inductive c_ifc := F (ia ifid : N).
+
 Record ncase := mkCase {
-  c_ases : list (N * bool * list N);            (* ia, core, forwarding key bytes *)
-  c_links : list (N * N * N * N * N * bool);    (* a, a-if, type (a IS type OF b: 0 peer 1 parent 2 child 3 core), b, b-if, up *)
+  c_ases : list c_as;
+  c_links : list c_link;
   c_now : N; c_at : N; c_if : N;                (* clock, injection AS and interface *)
   c_dst : N; c_ci : N; c_ch : N; c_lens : list N;
-  c_infos : list (N * N * N);                   (* flags (1 cons dir, 2 peering), SegID, timestamp *)
-  c_hops : list (N * N * N * N * N);            (* flags (1 cons egress alert, 2 cons ingress alert), exp, cons in, cons eg, mac *)
+  c_infos : list c_info;
+  c_hops : list c_hop;
   c_kind : N;                                   (* 0 offered path, 1 reverse of an arrived offered path, 2 mutated *)
-  c_meta : list (N * N);                        (* interface list of the path metadata (kind 0/1) *)
-  c_trace : list tline;                         (* implementation: per-AS lines *)
+  c_meta_l : list c_ifc;                         (* interface list of the path metadata (kind 0/1) *)
+  c_trace_l : list c_line;                      (* implementation: per-AS lines *)
   c_end : N;                                    (* 0 verdict, 1 iterator error, 2 panic, 3 step cap *)
   c_fin : list N }.                             (* packet state left behind: ci, ch, SegIDs, hop flags *)
+Definition c_meta (c : ncase) : list (N * N) := map (fun '(F a i) => (a, i)) (c_meta_l c).
+Definition c_trace (c : ncase) : list tline := map (fun '(T a i k x) => (a, i, k, x)) (c_trace_l c).
 
 Definition slt_of_code (c : N) : slt :=
   match c with 0 => SPeer | 1 => SParent | 2 => SChild | _ => SCore end.
 
 Definition case_topo (c : ncase) : topology cmac_key :=
-  mkTopo (map (fun '(ia, core, k) => mkAs ia core (cmac_prep k)) (c_ases c))
-         (map (fun '(a, ai, ty, b, bi, up) => mkLink a ai (slt_of_code ty) b bi up) (c_links c)).
+  mkTopo (map (fun '(A ia core k) => mkAs ia core (cmac_prep (be_bytes 16 k))) (c_ases c))
+         (map (fun '(L a ai ty b bi up) => mkLink a ai (slt_of_code ty) b bi up) (c_links c)).
 
 Definition case_packet (c : ncase) : packet :=
   mkPkt (c_dst c)
     (mkPath (N.to_nat (c_ci c)) (N.to_nat (c_ch c)) (map N.to_nat (c_lens c))
-       (map (fun '(f, s, ts) => mkInfo (N.testbit f 1) (N.testbit f 0) s ts) (c_infos c))
-       (map (fun '(f, e, i, g, m) => mkHop (N.testbit f 1) (N.testbit f 0) e i g m) (c_hops c))).
+       (map (fun '(I f s ts) => mkInfo (N.testbit f 1) (N.testbit f 0) s ts) (c_infos c))
+       (map (fun '(H f e i g m) => mkHop (N.testbit f 1) (N.testbit f 0) e i g m) (c_hops c))).
 
 Definition action_line (a : action) : N * N :=
   match a with
@@ -151,3 +161,67 @@ Definition verdict (c : ncase) : N :=
   + (if o1 then 0 else 4096) + (if o2 then 0 else 8192) + (if o3 then 0 else 16384).
 
 Definition verdicts (cs : list ncase) : list N := map verdict cs.
+
+(** * C01: segments of the real control plane against the beacon model *)
+Inductive c_peer := P (pia pif exp cin ceg mac : N).
+Inductive c_entry := E (ia : N) (key : N) (exp cin ceg mac : N) (peers : list c_peer).
+Record scase := mkSCase { sc_beta0 : N; sc_ts : N; sc_entries : list c_entry }.
+
+Definition sc_uentries (c : scase) : list (@uentry cmac_key) :=
+  map (fun '(E ia k e i g _ ps) =>
+         mkUEntry ia (cmac_prep (be_bytes 16 k)) (mkUHop e i g)
+                  (map (fun '(P pia pif pe pi pg _) => (pia, pif, mkUHop pe pi pg)) ps))
+      (sc_entries c).
+Definition seg_macs (s : segment) : list (N * list N) :=
+  map (fun e => (h_mac (se_hop e), map (fun '(_, _, ph) => h_mac ph) (se_peers e))) (sg_entries s).
+Definition sc_macs (c : scase) : list (N * list N) :=
+  map (fun '(E _ _ _ _ _ m ps) => (m, map (fun '(P _ _ _ _ _ pm) => pm) ps)) (sc_entries c).
+Definition macs_eqb (a b : list (N * list N)) : bool :=
+  list_eqb (fun x y => (fst x =? fst y) && list_eqb N.eqb (snd x) (snd y)) a b.
+
+(** bit 1: the model of [update_macs] disagrees with the implementation; bit 2 / 16: the
+    implementation's segment is not the specification's beacon (16: only peer-entry MACs
+    differ -- class of the repaired finding C01-beacon-peer-beta) *)
+Definition sverdict (c : scase) : N :=
+  let us := sc_uentries c in
+  let code := seg_macs (code_beacon hop_mac (sc_beta0 c) (sc_ts c) us) in
+  let spec := seg_macs (beacon hop_mac (sc_beta0 c) (sc_ts c) us) in
+  let impl := sc_macs c in
+  let mismatch := negb (macs_eqb code impl) in
+  let ok := macs_eqb spec impl in
+  let hops_ok := list_eqb N.eqb (map fst spec) (map fst impl) in
+  (if mismatch then 1 else 0)
+  + (if ok then 0 else if hops_ok then 16 else 2).
+Definition sverdicts (cs : list scase) : list N := map sverdict cs.
+
+(** * C01: offered paths under the reference router *)
+Definition verdict_c01 (c : ncase) : N :=
+  let t := case_topo c in
+  let pk := case_packet c in
+  let '(mtr, mend, mfin) := model_out t pk c in
+  let mismatch :=
+    negb (list_eqb tline_eqb mtr (c_trace c)) || negb (mend =? c_end c)
+    || (negb (is_nil (c_fin c)) && negb (list_eqb N.eqb mfin (c_fin c))) in
+  let '(rtr, rendv, _) := ref_out t pk c in
+  (* the reference router delivers at the destination, crossing exactly the listed interfaces *)
+  let rcross := flat_map (fun '(ia, i, e) => (if i =? 0 then [] else [(ia, i)]) ++ [(ia, e)]) rtr
+                ++ match rendv, rev rtr with
+                   | RDelivered ia, (pia, _, pe) :: _ =>
+                     match scion_link t pia pe with
+                     | Some l => match get_peer l pia with Some (_, i') => [(ia, i')] | None => [] end
+                     | None => []
+                     end
+                   | _, _ => []
+                   end in
+  let ok := optN_eqb (rend_delivered rendv) (Some (c_dst c)) && list_eqb pairN_eqb rcross (c_meta c) in
+  (* the reply over the reversed arrived path reaches the sender (reference router, model
+     reversal), for every offered path -- also those the simulated router cannot carry *)
+  let '(_, _, rpk) := ref_out t pk c in
+  let back :=
+    if c_kind c =? 0 then
+      let rp := mkPkt (c_at c) (path_reverse (k_path rpk)) in
+      let '(_, e2, _) := ref_sim hop_mac (S (length (c_hops c))) t (c_now c) (c_dst c) 0 rp in
+      optN_eqb (rend_delivered e2) (Some (c_at c))
+    else true in
+  (if mismatch then 1 else 0) + (if ok && back then 0 else 2) + (if back then 0 else 256).
+Definition verdicts_c01 (cs : list ncase) : list N := map verdict_c01 cs.
